@@ -86,7 +86,7 @@ Example C03_budget_spec_nonvacuous :
   let es := [FTime 1000; FSend (1,0,0) 22 [1]; FSend (1,0,0) 5 []; FTime 1001; FUp [1] 132 0; FTime 1003] in
   clock_mono 0 es = true /\
   let '(t, now, spec) := spec_run [] true 0 es (fun _ => []) in
-  outstanding_sum now (spec [1]) = 0 /\ n_used (get t [1]) = 32.
+  outstanding_sum now (spec [1]) = 0 /\ n_used (get t [1]) = 43.
 Proof. vm_compute. repeat split. Qed.
 
 Example C03_nonvacuous :
